@@ -50,6 +50,7 @@ type Plan struct {
 	Rand       uint64    `json:"rand"`
 	Pid        int       `json:"pid"`
 	Host       string    `json:"host,omitempty"`
+	FullAfter  int64     `json:"full_after,omitempty"` // > 0: the disk is full once this many bytes have been written: that write is cut short and every later write-side operation fails with ENOSPC
 	Sched      SchedPlan `json:"sched,omitempty"`
 	CPUs       int       `json:"cpus,omitempty"`
 	TickBudget int64     `json:"tick_budget"`
